@@ -165,6 +165,32 @@ pub fn structural_faults(buf: &[u8], emit: &mut dyn FnMut(&'static str, Vec<u8>)
     for k in 0..buf.len() {
         emit("cut", buf[..k].to_vec());
     }
+    // every cut point inside the body with the header length made consistent with the cut
+    // (a body that is not tiled by attributes although the declared length matches)
+    for k in 20..buf.len() {
+        let mut b = buf[..k].to_vec();
+        wire::set_len(&mut b, k - 20);
+        emit("cut-consistent", b);
+    }
+    // 1..3 stray bytes after the last attribute, declared length consistent
+    for n in 1..=3usize {
+        for fill in [0x00u8, 0xFF, 0x80] {
+            let mut b = buf.to_vec();
+            b.extend(std::iter::repeat(fill).take(n));
+            let l = b.len() - 20;
+            wire::set_len(&mut b, l);
+            emit("stray-tail", b);
+        }
+    }
+    // a whole extra attribute header (4 bytes) announcing more than is there, length consistent
+    for (t, l) in [(0xFF00u16, 1u16), (0x0008, 20), (0x8028, 4), (0xFF00, 0xFFFF)] {
+        let mut b = buf.to_vec();
+        b.extend_from_slice(&t.to_be_bytes());
+        b.extend_from_slice(&l.to_be_bytes());
+        let l = b.len() - 20;
+        wire::set_len(&mut b, l);
+        emit("dangling-header", b);
+    }
     // each attribute's declared length -1 / +1 / +4
     for &o in &offs {
         let len = wire::be16(&buf[o + 2..o + 4]) as i64;
